@@ -22,9 +22,9 @@ ADD = {
     'C11': ' The same entries are also caused by instructions (SVC, UDF, SMC, BKPT, trapped WFI/WFE/coprocessor accesses, aborting loads) through emulate_cycle(); ThumbEE interrupted states; implementation-defined vectors at 0.',
     'C12': ' Plus direct calls of cpsr_write_by_instr / spsr_write_by_instr over configuration x mode x 16 byte masks x return flag x NMFI/AW/FW/RFR, and reference-free entry + canonical-return round trips.',
     'C16': ' Devices and accesses cover the 40-bit physical space, maps of up to 12 devices, from_memory_list called twice with the same list, instruction-level edge steps with a value differential.',
-    'C18': ' One instance steps through 140 000 (600 000 thorough) distinct words with UNDEFINED words repeated. Also: every load/store path of both decoders under a valid stage-2 table whose data pages fault, every coprocessor encoding x p0..p15 under random trap controls, IRQ/FIQ/reset/event injections between program steps, Hyp MMU on, register-object integrity.',
+    'C18': ' One instance steps through 140 000 (600 000 thorough) distinct words with UNDEFINED words repeated. Also: every load/store path of both decoders under a valid stage-2 table whose data pages fault, every coprocessor encoding x p0..p15 under random trap controls, IRQ/FIQ/reset/event injections between program steps, the memory map re-arranged while a program runs (a two-page device used, unplugged or moved, used again), Hyp MMU on, register-object integrity.',
     'C19': ' The second clause also runs under VMSA (short- and long-descriptor tables from C15\'s builder) and with accesses straddling an accessible and a protected MPU region; Monitor mode after a User-mode step is a violation.',
-    'C20': ' Further legs: fresh-interpreter scripts (an instance created after instances of other configurations must equal the trace of a process that only ever loaded its configuration), the interleaving machine also injects IRQ / FIQ / reset and computes its expectations after the history (the harness never touches the module-level configuration in between), memory-hub access histories, Non-secure guests under stage-2 translation.',
+    'C20': ' Further legs: fresh-interpreter scripts (an instance created after instances of other configurations must equal the trace of a process that only ever loaded its configuration), the interleaving machine also injects IRQ / FIQ / reset and computes its expectations after the history (the harness never touches the module-level configuration in between), memory-hub access histories, Non-secure guests under stage-2 translation. Two legs with a schedule finer than whole steps, owned by the harness: a device whose reads let a peer processor run one instruction (each trace must equal the solo trace), and one instance pre-empted at a generated source line of its step (sys.settrace) while a peer executes an instruction.',
 }
 PY = 'PYTHONPATH=/repo:/verif PYTHONHASHSEED=0 PYTHONDONTWRITEBYTECODE=1 /venv/bin/python'
 
@@ -131,7 +131,7 @@ CLAIMED['C20'] = ('E5 stateful', 'stateful property testing of instance interlea
                   'Per-step digests of the complete state are compared between an instance, its deepcopy, a rebuild from the saved case and an instance with a different prior '
                   'history; a rule-based machine creates up to three instances and interleaves their steps, each must follow its solo trace. Mixed-configuration groups hit the '
                   'known finding config-singleton, attributed only when the quirk model predicts the observed trace exactly.',
-                  'Trusted: the harness owns the schedule (whole emulate_cycle calls); no threads.', 'DESIGN.md section 5 C20')
+                  'Trusted: the harness owns the schedule (whole emulate_cycle calls, plus peer instructions placed inside a step at device reads / source lines); no real threads.', 'DESIGN.md section 5 C20')
 
 CLAIMED['C15'] = ('E3 unitdiff + E1 stepdiff', 'property-based differential testing against a reference page-table walker (tables built by construction + arbitrary descriptors)',
                   'translate_address is compared with an independent short-descriptor walker (TTBR0/1 split, sections, supersections, large/small pages, domains, AP/APX with AFE, '
